@@ -513,7 +513,8 @@ def c16_eval(ctx):
 
 def check_C16(rep, tier, seed, replay):
     ctx = Ctx(rep, tier, seed)
-    proof_ok = core.prove(rep, "C16", ["C16_adler_compose", "C16_adler_closed", "C16_crc_compose", "C16_empty_update"])
+    proof_ok = core.prove(rep, "C16", ["C16_adler_compose", "C16_adler_closed", "C16_crc_compose", "C16_empty_update",
+                                      "C16_level0_compressor_running_adler_partial", "C16_stored_streams_decoder_running_adler_partial"])
     if replay:
         load_replay(ctx, replay)
     else:
